@@ -52,6 +52,19 @@ int main(int argc, char** argv) {
 			bool other = true; for(L i = 0; i < n; ++i) for(L j = 0; j < n; ++j) if(upper ? (j < i) : (j > i)) other &= (A[i][j] == S[std::size_t(i * n + j)]); if(!other) violation(K + "other-triangle-modified", "the triangle that was not selected was modified");
 			for(L i = 0; i < n; ++i) for(L j = 0; j < n; ++j) A[i][j] = FILL; if(Rb.stray()) violation(K + "outside-view-written", "elements outside the operated view were overwritten"); count("computed"); count(std::string("acc:potrf:") + MK[kind] + (upper ? ":upper" : ":lower") + ":computed");
 		} catch(assertion_failure const&) { count("rejected:assertion"); count(std::string("acc:potrf:") + MK[kind] + (upper ? ":upper" : ":lower") + ":rejected"); violation(K + "rejected", "potrf rejected (assertion) an operand of a kind it accepts: row-/column-major, contiguous or padded"); } catch(std::exception const& e) { count("rejected:exception"); count(std::string("acc:potrf:") + MK[kind] + (upper ? ":upper" : ":lower") + ":rejected"); violation(K + "rejected", std::string("potrf rejected an operand of a kind it accepts: ") + e.what()); }
+		// the leading K rows of a row-major matrix (the shape potrf itself returns after a partial factorisation), as an array and as an iterator pair: the leading K x K block is
+		// factorised in the selected triangle and NOTHING else of the matrix is written
+		if(kind <= 1 && n >= 3 && !indefinite && c.k % 3 == 1) { L const kk = g.in(1, n - 1); bool const iter = g.chance(1, 2); std::string const K2 = std::string("C14:potrf(leading-rows):") + MK[kind] + (iter ? ":iterators:" : ":block:") + (upper ? "upper:" : "lower:");
+			for(L i = 0; i < n; ++i) for(L j = 0; j < n; ++j) A[i][j] = S[std::size_t(i * n + j)]; op("potrf:leading-rows"); count("potrf:leading-rows");
+			try { L q = -1; if(iter) { auto last = ml::potrf(upper ? ml::filling::upper : ml::filling::lower, A.begin(), A.begin() + kk); q = L(last - A.begin()); } else { auto&& F2 = ml::potrf(upper ? ml::filling::upper : ml::filling::lower, A({0, kk})); q = F2.size(); }
+				if(q != kk) violation(K2 + "returned-order", "potrf of the leading " + std::to_string(kk) + " rows of a positive definite " + std::to_string(n) + "x" + std::to_string(n) + " matrix reports order " + std::to_string(q));
+				double err = 0, scale = 1; for(auto e : S) scale = std::max(scale, std::abs(e));
+				for(L i = 0; i < kk; ++i) for(L j = 0; j < kk; ++j) { if(upper ? (j < i) : (j > i)) continue; double s2 = 0; for(L k2 = 0; k2 <= std::min(i, j); ++k2) { double a = upper ? A[k2][i] : A[i][k2]; double b = upper ? A[k2][j] : A[j][k2]; s2 += a * b; } err = std::max(err, std::abs(s2 - S[std::size_t(i * n + j)])); }
+				if(err > 50 * double(n) * 2.3e-16 * scale) violation(K2 + "reconstruction", "the factor of the leading block does not reproduce it (residual " + std::to_string(err) + ")");
+				long touched = 0; for(L i = 0; i < n; ++i) for(L j = 0; j < n; ++j) { bool const sel = i < kk && j < kk && (upper ? (j >= i) : (j <= i)); if(!sel && !(A[i][j] == S[std::size_t(i * n + j)])) ++touched; }
+				if(touched) violation(K2 + "outside-selected-block-written", std::to_string(touched) + " elements outside the selected triangle of the leading block were overwritten");
+				for(L i = 0; i < n; ++i) for(L j = 0; j < n; ++j) A[i][j] = FILL; if(Rb.stray()) violation(K2 + "outside-view-written", "elements outside the matrix were overwritten");
+			} catch(assertion_failure const&) { count("leading-rows:rejected(assertion)"); } catch(std::exception const&) { count("leading-rows:rejected(exception)"); } }
 #elif C14_R == 2
 		L const m = g.in(1, MAXN), n = g.in(1, MAXN); int const kind = int(g.below(4));
 		std::vector<double> A0(std::size_t(m * n)); for(auto& e : A0) e = double(g.below(9)) - 4 + 0.25 * double(g.below(4));
